@@ -121,7 +121,10 @@ def _c11_one_shot(f: Failure) -> bool:
         return o.get("is_suffix") is True and o.get("exc") is None
     if f["kind"] == "payload-differs":
         # the first complete request seen by the server already followed a failed send attempt
-        return str(o.get("history", "")).startswith("sendreset1") and o.get("got", 0) < o.get("want", 0) and o.get("exc") is None
+        if str(o.get("history", "")).startswith("sendreset1") and o.get("got", 0) < o.get("want", 0) and o.get("exc") is None:
+            return True
+        # ... or an attempt that the server answered before the body had been written
+        return o.get("after_early_response") is True and o.get("is_suffix") is True and o.get("got", 0) < o.get("want", 0) and o.get("exc") is None
     return False
 
 
